@@ -104,25 +104,24 @@ impl FlatBus {
     }
     pub fn rd(&self, addr: u32) -> u8 {
         let a = addr & 0x00FF_FFFF;
-        if a < 0x100000 {
-            self.ext[a as usize]
-        } else if a < 0x100100 {
+        if (0x100000..0x100100).contains(&a) {
             self.imem[(a - 0x100000) as usize]
         } else {
-            0
+            // outside the internal window the external space wraps modulo 1 MiB (as the machine buses do)
+            self.ext[(a & 0xFFFFF) as usize]
         }
     }
     pub fn wr(&mut self, addr: u32, val: u8) {
         let a = addr & 0x00FF_FFFF;
-        if a < 0x100000 {
-            self.ext[a as usize] = val;
-        } else if a < 0x100100 {
+        let key = if (0x100000..0x100100).contains(&a) {
             self.imem[(a - 0x100000) as usize] = val;
+            a
         } else {
-            return;
-        }
+            self.ext[(a & 0xFFFFF) as usize] = val;
+            a & 0xFFFFF
+        };
         if self.log_writes {
-            self.writes.insert(a, val);
+            self.writes.insert(key, val);
         }
     }
 }
